@@ -120,7 +120,7 @@ class Report:
                 seen.add(path)
                 if len(seen) <= 20:
                     print(f'VIOLATION property={self.pid} replay={path}')
-                    print(f'  what: {what}')
+                    print(f'  what: {what[:300]}')
         if len(self.violations) > 20:
             print(f'  … {len(self.violations) - 20} more violations not listed')
         print(f'[{self.pid}] tier={self.tier} seed={self.seed} states={self.states} transitions={self.transitions} '
